@@ -64,6 +64,7 @@ func verifBytesEq(a, b []byte) bool
 func verifStrEq(a, b string) bool
 func verifProgress(measure func() int, fns ...string)
 func verifAllocBound(n int)
+func verifLoopBound(fnSuffix string, iterations int)
 `
 
 // harnessOverlay builds the overlay for a harness directory injected into pkgDir.
